@@ -291,10 +291,16 @@ def worker_main(argv):
 # --------------------------------------------------------------------------- known findings
 
 def load_known(prop):
-    if not os.path.exists(KNOWN_FILE):
-        return []
-    data = json.load(open(KNOWN_FILE))
-    return [e for e in data.get("findings", []) if e.get("property") == prop]
+    """Known findings: known_findings.json plus per-property files in known_findings.d/."""
+    import glob
+    out = []
+    files = [KNOWN_FILE] + sorted(glob.glob(os.path.join(VERIF_ROOT, "known_findings.d", "*.json")))
+    for fn in files:
+        if not os.path.exists(fn):
+            continue
+        data = json.load(open(fn))
+        out += [e for e in data.get("findings", []) if e.get("property") == prop]
+    return out
 
 def _match_value(want, got):
     if isinstance(want, list):
